@@ -131,6 +131,15 @@ trait EfObj {
     }
 }
 
+thread_local! {
+    /// When set, dictionary queries go through the `impl Trait for &T` forwarding
+    /// impls (what generic code receiving `&ef` uses) instead of the direct impl.
+    static VIA_REF: std::cell::Cell<bool> = const { std::cell::Cell::new(false) };
+}
+fn via_ref() -> bool {
+    VIA_REF.with(|c| c.get())
+}
+
 struct Plain<D>(D);
 struct Seq<D>(D);
 struct Dict<D>(D);
@@ -156,7 +165,8 @@ macro_rules! common {
 macro_rules! seq_part {
     () => {
         fn get(&self, i: usize) -> Option<usize> {
-            Some(IndexedSeq::get(&*self.0, i))
+            let r = &*self.0;
+            Some(if via_ref() { IndexedSeq::get(&r, i) } else { IndexedSeq::get(r, i) })
         }
         fn iter_from(&self, k: usize, via_trait: bool, hints: bool) -> Option<Walk> {
             Some(if via_trait {
@@ -171,27 +181,33 @@ macro_rules! seq_part {
 macro_rules! dict_part {
     () => {
         fn index_of(&self, q: usize) -> Option<Option<usize>> {
-            Some(IndexedDict::index_of(&*self.0, q))
+            let r = &*self.0;
+            Some(if via_ref() { IndexedDict::index_of(&r, q) } else { IndexedDict::index_of(r, q) })
         }
         fn contains(&self, q: usize) -> Option<bool> {
-            Some(IndexedDict::contains(&*self.0, &q))
+            let r = &*self.0;
+            Some(if via_ref() { IndexedDict::contains(&r, &q) } else { IndexedDict::contains(r, &q) })
         }
         fn succ_unchecked(&self, q: usize, strict: bool) -> Option<(usize, usize)> {
             // called by the scripts only when the successor exists (documented precondition)
+            let r = &*self.0;
             Some(unsafe {
-                if strict {
-                    SuccUnchecked::succ_unchecked::<true>(&*self.0, q)
-                } else {
-                    SuccUnchecked::succ_unchecked::<false>(&*self.0, &q)
+                match (strict, via_ref()) {
+                    (true, false) => SuccUnchecked::succ_unchecked::<true>(r, q),
+                    (false, false) => SuccUnchecked::succ_unchecked::<false>(r, &q),
+                    (true, true) => SuccUnchecked::succ_unchecked::<true>(&r, q),
+                    (false, true) => SuccUnchecked::succ_unchecked::<false>(&r, &q),
                 }
             })
         }
         fn pred_unchecked(&self, q: usize, strict: bool) -> Option<(usize, usize)> {
+            let r = &*self.0;
             Some(unsafe {
-                if strict {
-                    PredUnchecked::pred_unchecked::<true>(&*self.0, q)
-                } else {
-                    PredUnchecked::pred_unchecked::<false>(&*self.0, &q)
+                match (strict, via_ref()) {
+                    (true, false) => PredUnchecked::pred_unchecked::<true>(r, q),
+                    (false, false) => PredUnchecked::pred_unchecked::<false>(r, &q),
+                    (true, true) => PredUnchecked::pred_unchecked::<true>(&r, q),
+                    (false, true) => PredUnchecked::pred_unchecked::<false>(&r, &q),
                 }
             })
         }
@@ -247,10 +263,22 @@ where
     seq_part!();
     dict_part!();
     fn succ(&self, q: usize, strict: bool) -> Option<Option<(usize, usize)>> {
-        Some(if strict { Succ::succ_strict(&*self.0, q) } else { Succ::succ(&*self.0, &q) })
+        let r = &*self.0;
+        Some(match (strict, via_ref()) {
+            (true, false) => Succ::succ_strict(r, q),
+            (false, false) => Succ::succ(r, &q),
+            (true, true) => Succ::succ_strict(&r, q),
+            (false, true) => Succ::succ(&r, &q),
+        })
     }
     fn pred(&self, q: usize, strict: bool) -> Option<Option<(usize, usize)>> {
-        Some(if strict { Pred::pred_strict(&*self.0, q) } else { Pred::pred(&*self.0, &q) })
+        let r = &*self.0;
+        Some(match (strict, via_ref()) {
+            (true, false) => Pred::pred_strict(r, q),
+            (false, false) => Pred::pred(r, &q),
+            (true, true) => Pred::pred_strict(&r, q),
+            (false, true) => Pred::pred(&r, &q),
+        })
     }
 }
 
@@ -568,6 +596,8 @@ pub fn run(ep: &Value, ctx: &mut Ctx) {
     ctx.emit(&hdr, "ret", st.proj());
     for op in ops {
         ctx.begin(op);
+        // every other call (or as the script says) goes through the `&T` forwarding impls
+        VIA_REF.with(|c| c.set(op.get("ref").and_then(|v| v.as_bool()).unwrap_or(ctx.i % 2 == 1)));
         let name = op["op"].as_str().unwrap();
         let na = || Err::<Value, String>(NA.to_string());
         let r: Result<Value, String> = match name {
